@@ -2172,6 +2172,12 @@ pub(crate) mod convert {
                 dwarf,
             };
 
+            // Units in `.debug_types` are not converted; fail rather than silently
+            // dropping them (and leaving their `DW_FORM_ref_sig8` references dangling).
+            if read_dwarf.type_units().next()?.is_some() {
+                return Err(ConvertError::UnsupportedUnitType);
+            }
+
             // Assigns ids to all units and entries, so that we can convert
             // references in attributes.
             let mut offsets = Vec::new();
